@@ -25,6 +25,7 @@ type GenOpts struct {
 	Extra       []func(g *Gen) // additional gadget emitters mixed in (journal ops etc.)
 	ExtraBias   int            // percent
 	Precompiles bool
+	ReturnData  bool // RETURNDATASIZE/RETURNDATACOPY are available (Byzantium+)
 }
 
 // Gen is the generator state for one program.
@@ -129,6 +130,9 @@ func (g *Gen) target() common.Address {
 	case k == 7:
 		return Nobody
 	case k == 8:
+		if g.R.Bool() {
+			return EmptyAcct
+		}
 		return EOAPoor
 	case k == 9 && g.O.Precompiles:
 		return common.BytesToAddress([]byte{byte(1 + g.R.Intn(9))})
@@ -422,6 +426,47 @@ func (g *Gen) gCall() {
 		g.op(RETURNDATASIZE)
 		g.sink()
 	}
+	if g.O.ReturnData && g.R.Chance(35) {
+		// copy the whole return-data buffer (always in bounds) and make its first word observable
+		dst := g.smallOff()
+		g.op(RETURNDATASIZE)
+		g.A.PushU(0).PushU(dst)
+		g.op(RETURNDATACOPY)
+		g.A.PushU(dst)
+		g.op(MLOAD)
+		g.A.PushU(uint64(g.R.Intn(8)))
+		g.op(SSTORE)
+	}
+}
+
+// gIdentityAlias: call the identity precompile, overwrite its input area, then read the return data.
+func (g *Gen) gIdentityAlias() {
+	in := g.smallOff()
+	g.A.Push(g.R.U256()).PushU(in)
+	g.op(MSTORE)
+	kind := Pick(g.R, []byte{CALL, CALLCODE, DELEGATECALL, STATICCALL})
+	retOff := in
+	if g.R.Bool() {
+		retOff = in + uint64(1+g.R.Intn(31)) // shifted overlap
+	}
+	g.A.PushU(32).PushU(retOff).PushU(32).PushU(in)
+	if kind == CALL || kind == CALLCODE {
+		g.A.PushU(0)
+	}
+	g.A.PushAddr(common.BytesToAddress([]byte{4})).PushU(uint64(2000 + g.R.Intn(3000)))
+	g.op(kind)
+	g.op(POP)
+	g.A.Push(g.R.U256()).PushU(in)
+	g.op(MSTORE)
+	if g.O.ReturnData {
+		g.op(RETURNDATASIZE)
+		g.A.PushU(0).PushU(0x300)
+		g.op(RETURNDATACOPY)
+		g.A.PushU(0x300)
+		g.op(MLOAD)
+		g.A.PushU(uint64(g.R.Intn(8)))
+		g.op(SSTORE)
+	}
 }
 
 // InitTemplates returns init-code templates: returns code / reverts / runs out of gas /
@@ -463,8 +508,9 @@ func (g *Gen) gCreate() {
 	}
 	g.A.MstoreBytes(0, init)
 	two := g.R.Chance(40)
+	lastSalt := uint64(g.R.Intn(3))
 	if two {
-		g.A.Push(uint256.NewInt(uint64(g.R.Intn(3)))) // salt (small: collisions on repeat)
+		g.A.Push(uint256.NewInt(lastSalt)) // salt (small: collisions on repeat)
 	}
 	g.A.PushU(uint64(len(init))).PushU(0)
 	switch g.R.Intn(4) {
@@ -481,6 +527,13 @@ func (g *Gen) gCreate() {
 		g.op(CREATE)
 	}
 	g.sink()
+	if two && g.R.Chance(30) {
+		// the very same CREATE2 again: address collision
+		g.A.Push(uint256.NewInt(lastSalt))
+		g.A.PushU(uint64(len(init))).PushU(0).PushU(0)
+		g.op(CREATE2)
+		g.sink()
+	}
 }
 
 func (g *Gen) gTerminator() {
@@ -542,9 +595,12 @@ func (g *Gen) Gadget() {
 		return
 	}
 	if g.R.Chance(cb) {
-		if !g.O.NoCreate && g.R.Chance(20) {
+		switch {
+		case !g.O.NoCreate && g.R.Chance(20):
 			g.gCreate()
-		} else {
+		case g.O.Precompiles && g.R.Chance(12):
+			g.gIdentityAlias()
+		default:
 			g.gCall()
 		}
 		return
